@@ -69,7 +69,9 @@ func oracle(c Case, o *h.Obs) *h.Fail {
 		o.Class("pattern_" + k)
 	}
 	if !v.OK {
-		return h.Failf("C04|"+v.Clause, "program:\n%s\n%s", v.Src, v.Detail)
+		f := h.Failf("C04|"+v.Clause, "program:\n%s\n%s", v.Src, v.Detail)
+		f.NoShrink = v.Clause == "no-termination"
+		return f
 	}
 	if v.Cfg != (prog.Cfg{}) {
 		o.Class("matched_alternative_parameterisation")
